@@ -31,6 +31,7 @@ warnings.filterwarnings('ignore', category=SyntaxWarning)
 REGISTRY = {
     'C03': ['contracts.lemmas', 'contracts.c03'],
     'C08': ['contracts.c08'],
+    'C17': ['contracts.c17'],
 }
 
 BASELINE_FILE = os.path.join(HERE, 'baseline', 'obligations.json')
